@@ -35,7 +35,7 @@ pub struct Rec {
 pub struct ProbeState {
   pub log: Vec<Rec>,
   pub terminated: bool,
-  pub silenced_at: Option<u64>, // tick at which unsubscribe() returned
+  pub silenced_at: Option<(u64, &'static str)>, // tick from which any delivery is a violation, and why
   pub in_callback: bool,
   pub required_lock: Option<usize>,
 }
@@ -110,6 +110,7 @@ pub fn w<R>(f: impl FnOnce(&mut World) -> R) -> R {
 
 pub fn reset_world() {
   crate::cat::reset_handles();
+  crate::h_subject::reset();
   // Dropping tasks may run rxRust destructors which call back into the world:
   // take things out first, drop them outside the borrow.
   let old = W.with(|x| std::mem::take(&mut *x.borrow_mut()));
@@ -187,7 +188,7 @@ impl Probe {
     let id = self.id;
     enum Bad {
       AfterTerminal,
-      AfterUnsub(u64),
+      AfterUnsub(u64, &'static str),
       Overlap,
       Lockset,
     }
@@ -204,8 +205,8 @@ impl Probe {
       let mut bad = None;
       if p.terminated {
         bad = Some(Bad::AfterTerminal);
-      } else if let Some(t) = p.silenced_at {
-        bad = Some(Bad::AfterUnsub(t));
+      } else if let Some((t, why)) = p.silenced_at {
+        bad = Some(Bad::AfterUnsub(t, why));
       } else if p.in_callback {
         bad = Some(Bad::Overlap);
       } else if !held_ok {
@@ -220,7 +221,7 @@ impl Probe {
     e::note(format!("p{}<-{}", id, show_ev(&ev)));
     match bad {
       Some(Bad::AfterTerminal) => e::fail("grammar/event-after-terminal", || format!("probe {} got {} after its terminal", id, show_ev(&ev))),
-      Some(Bad::AfterUnsub(t)) => e::fail("delivery-after-unsubscribe", || format!("probe {} got {} after unsubscribe() returned at tick {}", id, show_ev(&ev), t)),
+      Some(Bad::AfterUnsub(t, why)) => e::fail(why, || format!("probe {} got {} although silenced at tick {} ({})", id, show_ev(&ev), t, why)),
       Some(Bad::Overlap) => e::fail("overlapping-callback", || format!("probe {} entered on two logical threads at once", id)),
       Some(Bad::Lockset) => e::fail("lockset/callback-without-slot-lock", || format!("probe {} called without its slot lock held", id)),
       None => {}
@@ -251,9 +252,15 @@ impl Probe {
   }
   /// from now on any delivery is a C02 violation
   pub fn silence(&self) {
+    self.forbid("delivery-after-unsubscribe")
+  }
+  /// from now on any delivery is a violation with this key
+  pub fn forbid(&self, why: &'static str) {
     w(|w| {
       let t = w.tick;
-      w.probes[self.id].silenced_at = Some(t)
+      if w.probes[self.id].silenced_at.is_none() {
+        w.probes[self.id].silenced_at = Some((t, why))
+      }
     })
   }
 }
